@@ -361,7 +361,9 @@ def _init_worker():
     os.environ.setdefault("MKL_NUM_THREADS", "1")
     os.environ.setdefault("OPENBLAS_NUM_THREADS", "1")
     import warnings
+    import logging
     warnings.filterwarnings("ignore")
+    logging.disable(logging.WARNING)
     try:
         import torch
         torch.set_num_threads(1)
@@ -389,4 +391,6 @@ def setup_repo_path():
     if REPO not in sys.path:
         sys.path.insert(0, REPO)
     import warnings
+    import logging
     warnings.filterwarnings("ignore")
+    logging.disable(logging.WARNING)
